@@ -92,7 +92,12 @@ def makeURLKeyOf (scheme host path query opaq : Str) : Str :=
     let base := scheme ++ (str% "://") ++ hostPort ++ path
     if query.isEmpty then base else base ++ ['?'] ++ normalizePercentEncoding query
 
-def makeURLKey (r : Req) : Str := makeURLKeyOf r.scheme r.host r.path r.query r.opaq
+/-- … and the "?" of a URL whose query is present but empty (url.URL.ForceQuery) -/
+def makeURLKeyQ (scheme host path query opaq : Str) (forceQuery : Bool) : Str :=
+  if forceQuery && query.isEmpty && opaq.isEmpty then makeURLKeyOf scheme host path query opaq ++ ['?']
+  else makeURLKeyOf scheme host path query opaq
+
+def makeURLKey (r : Req) : Str := makeURLKeyQ r.scheme r.host r.path r.query r.opaq r.forceQuery
 
 /-- isRequestMethodUnderstood -/
 def isRequestMethodUnderstood (r : Req) : Bool :=
